@@ -28,6 +28,7 @@ func c17(c *Ctx) {
 	c.Assume("encoding/binary.BigEndian decodes big-endian values (trusted)")
 	c17Decoder(c)
 	c17IPP(c)
+	c17NoListAliasing(c)
 }
 
 func c17Decoder(c *Ctx) {
